@@ -90,6 +90,17 @@ CLAIMED = {
              "saw is judged by TLC (specs/HeaderMapTrace.tla): envelope, then equality with the model (drift).",
         design_ref="DESIGN.md 4 C08, 9",
         technique="TLA+ decision-table model + envelope checked by TLC on the full product; TLC-emitted cases replayed into the real handle(); TLC judges observed environs"),
+    "C15": dict(
+        text="specs/Environ.tla is an executable RFC 3875 / PEP 3333 reference over symbolic request targets (unreserved, "
+             "slashes, percent-escapes of ASCII / high bytes / %2F / %25 / malformed escapes, raw high bytes, sub-delims, HTAB, "
+             "query delimiter) in origin, '//'-prefixed, absolute and asterisk form; TLC enumerates every target of <= MaxLen "
+             "symbols, checks the reference's sanity invariants and emits the cases; each is concretized (several spellings per "
+             "symbol), served through the real parser and wsgi.create via handle(), and the environ (PATH_INFO, QUERY_STRING, "
+             "RAW_URI, REQUEST_METHOD, SERVER_PROTOCOL, SCRIPT_NAME, HTTP_* with repeated fields, CONTENT_TYPE/LENGTH) is "
+             "abstracted back to symbols and judged by TLC (specs/EnvironTrace.tla).",
+        design_ref="DESIGN.md 4 C15, 9",
+        technique="TLA+ executable reference of the CGI mapping; TLC-enumerated targets replayed into the real code; TLC judges observed environs",
+        note="Transcribed-function use of the technique (DESIGN.md 6): class-complete enumeration and an independent reference, no interleavings. " ),
 }
 
 NOT_YET = {
@@ -108,7 +119,7 @@ def main():
             "replay_cmd_template": "./check %s --replay {path}" % pid,
             "engine": "tlc",
             "level_claimed": {"category": "model_checking", "text": c["text"], "design_ref": c["design_ref"]},
-            "level_note": c.get("note", TLC_NOTE),
+            "level_note": c.get("note", "") + TLC_NOTE,
             "technique": c["technique"],
         })
     allp = ["C%02d" % i for i in range(1, 21)]
